@@ -31,10 +31,18 @@ Has(r, f) == f \in DOMAIN r
 Bit(x, k) == (x \div (IF k = 0 THEN 1 ELSE IF k = 1 THEN 2 ELSE 4)) % 2 = 1
 
 (* ---- emit ---------------------------------------------------------------- *)
+IsDP(r) == Has(r, "kind") /\ r.kind = "dualpartial"
 Emit(r) ==
-    IF ~EdgeTableOK(r.mesh, r.n_node, r.edges) THEN PrintT(<<"X", i>>)
+    IF IsDP(r) THEN PrintT(<<"P", i, [ k \in 1..Len(r.src_ef) |-> SetToSortSeq(Range(r.src_ef[k]) \ { PAD }, <) ]>>)
+    ELSE IF ~EdgeTableOK(r.mesh, r.n_node, r.edges) THEN PrintT(<<"X", i>>)
     ELSE /\ PrintT(<<"P", i, [ k \in 1..Len(r.edges) |-> FacePairSeq(r.mesh, r.edges[k]) ]>>)
-         /\ (Has(r, "nodes") => PrintT(<<"G", i, [ k \in 1..Len(r.edges) |-> NodeGeo(r.nodes, r.edges[k]) ]>>))
+         /\ ((Has(r, "nodes") /\ ~Has(r, "centre")) =>
+                PrintT(<<"G", i, [ k \in 1..Len(r.edges) |-> NodeGeo(r.nodes, r.edges[k]) ]>>))
+         \* fine mesh: the recorded grid is the base mesh shrunk about `centre`; closed-form parts per edge
+         /\ (Has(r, "centre") =>
+                PrintT(<<"H", i, [ k \in 1..Len(r.edges) |->
+                          LET p == ShrunkNodeGeoParts(r.nodes, r.centre, r.edges[k])
+                          IN << p.al, p.be, p.cc, p.ab, p.w1, p.w2 >> ]>>))
 
 (* ---- judge ----------------------------------------------------------------- *)
 \* an interior edge whose two faces have the same corner set: their centres coincide, the centre
@@ -42,7 +50,11 @@ Emit(r) ==
 DegenerateRow(mesh, row) ==
     LET p == FacePairSeq(mesh, row)
     IN Len(p) = 2 /\ Corners(mesh[p[1] + 1]) = Corners(mesh[p[2] + 1])
-HasDegenerate(r) == \E k \in 1..Len(r.edges) : DegenerateRow(r.mesh, r.edges[k])
+\* ... or one of whose faces has its centre inside the library's pole-snapping zone (|z| > 1 - 1e-8, a cap of
+\* 1.4e-4 rad: the reported centre is the pole itself, which is C04's tolerance, not C16's subject); the harness
+\* marks such edges from its reference centres (snap)
+Excluded(r, k)   == DegenerateRow(r.mesh, r.edges[k]) \/ (Has(r, "snap") /\ r.snap[k])
+HasDegenerate(r) == \E k \in 1..Len(r.edges) : Excluded(r, k)
 
 Match(got, exp, exact) ==
     /\ got[2] > 0
@@ -80,10 +92,10 @@ Clauses(r) ==
       NodeDistances  |-> Has(r, "nd_ok") => Len(r.nd_ok) = Len(E) /\ \A k \in 1..Len(E) : r.nd_ok[k],
       FaceDistances  |-> Has(r, "fd_ok") =>
                            /\ Len(r.fd_ok) = Len(E)
-                           /\ \A k \in 1..Len(E) : DegenerateRow(m, E[k]) \/ r.fd_ok[k],
+                           /\ \A k \in 1..Len(E) : Excluded(r, k) \/ r.fd_ok[k],
       FaceDistanceZeroOnBoundary |->
                          Has(r, "fd_zero") => \A k \in 1..Len(E) :
-                            DegenerateRow(m, E[k]) \/ (r.fd_zero[k] <=> IsBoundaryRow(m, E[k])),
+                            Excluded(r, k) \/ (r.fd_zero[k] <=> IsBoundaryRow(m, E[k])),
       DistanceDims   |-> Has(r, "dist_dims") => \A j \in 1..Len(r.dist_dims) : r.dist_dims[j] = << "n_edge" >>,
       SuppliedNodeDistances |->
                          Has(r, "supplied_dv") =>
@@ -116,12 +128,37 @@ Clauses(r) ==
       Accepts        |-> \A f \in { "ndiff", "fdiff", "grad", "gradn" } : Has(r, f) => Has(r[f], "v")
     ]
 
-Failed(r) == IF ~EdgeTableOK(r.mesh, r.n_node, r.edges) THEN { "EdgeTable" }
+\* MPAS dual of a PARTIAL mesh: the source describes open fans (faces with 1-2 nodes) and one-ended edges, so
+\* the grid is not a mesh in the sense of Mesh.tla.  What the property still fixes: the edge's nodes / faces are
+\* the ones the source names (cellsOnEdge / verticesOnEdge), distances where both ends exist, face differences
+\* and gradients over the source's pairs.
+DPClauses(r) ==
+    LET E == r.edges
+        two(k)  == PAD \notin Range(r.src_ef[k]) /\ Len(r.src_ef[k]) = 2
+        fexp(row, k) == IF two(k) THEN << Abs(r.yrows[row][r.src_ef[k][1] + 1] - r.yrows[row][r.src_ef[k][2] + 1]), r.den >>
+                        ELSE << 0, r.den >>
+        ok(f) == Has(r, f) /\ Has(r[f], "v")
+    IN
+    [ DualPartialPairs |-> /\ Len(E) = Len(r.src_en) /\ Len(r.edge_faces) = Len(r.src_ef)
+                           /\ \A k \in 1..Len(E) : Range(E[k]) = Range(r.src_en[k])
+                           /\ \A k \in 1..Len(r.edge_faces) : Range(r.edge_faces[k]) = Range(r.src_ef[k]),
+      DualPartialNodeDistances |-> Len(r.nd_ok) = Len(r.src_en) /\
+                           \A k \in 1..Len(r.src_en) : (PAD \notin Range(r.src_en[k])) => r.nd_ok[k],
+      DualPartialFaceDistances |-> Len(r.fd_ok) = Len(r.src_ef) /\ \A k \in 1..Len(r.src_ef) : two(k) => r.fd_ok[k],
+      DualPartialFaceDiff |-> ok("fdiff") => ValuesOK(r, r.fdiff, r.yrows, fexp, TRUE),
+      DualPartialGrad     |-> ok("grad")  => ValuesOK(r, r.grad, r.yrows, fexp, FALSE),
+      Shape_fdiff    |-> ok("fdiff") => ShapeOK(r, r.fdiff, r.lead, r.lead_dims),
+      Shape_grad     |-> ok("grad")  => ShapeOK(r, r.grad, r.lead, r.lead_dims),
+      Accepts        |-> \A f \in { "fdiff", "grad" } : Has(r, f) => Has(r[f], "v")
+    ]
+
+Failed(r) == IF IsDP(r) THEN LET c == DPClauses(r) IN { k \in DOMAIN c : ~c[k] }
+             ELSE IF ~EdgeTableOK(r.mesh, r.n_node, r.edges) THEN { "EdgeTable" }
              ELSE LET c == Clauses(r) IN { k \in DOMAIN c : ~c[k] }
 
 \* signature of a known defect shape: the whole array, not each leading index, has unit norm
 WholeArrayNorm(r) ==
-    /\ Has(r, "gradn") /\ Has(r.gradn, "v") /\ ~HasDegenerate(r)
+    /\ ~IsDP(r) /\ Has(r, "gradn") /\ Has(r.gradn, "v") /\ ~HasDegenerate(r)
     /\ r.gradn.whole
     /\ Cardinality({ row \in 1..Len(r.yrows) : NormDefined(r.mesh, r.edges, r.yrows[row]) }) >= 2
 
